@@ -50,7 +50,21 @@ fn rules_text(u: &mut Choices, k: RK, i: usize) -> String {
             format!("{} rule br{} {{\n  a == 1\n}}\n", NOT_UTF8, i),
         ][u.below(7)]
         .clone(),
-        RK::EvalErr => [format!("rule ee{} {{\n  a empty\n}}\n", i), format!("rule ee{} {{\n  let v = parse_int(b)\n  %v == 1\n}}\n", i), format!("rule ee{} {{\n  %nosuchvar == 1\n}}\n", i)][u.below(3)].clone(),
+        RK::EvalErr => [
+            format!("rule ee{} {{\n  a empty\n}}\n", i),
+            format!("rule ee{} {{\n  let v = parse_int(b)\n  %v == 1\n}}\n", i),
+            format!("rule ee{} {{\n  %nosuchvar == 1\n}}\n", i),
+            // the same inside the constructs that have a status of their own
+            format!("rule ee{} {{\n  when kind exists {{\n    %nosuchvar == 1\n  }}\n}}\n", i),
+            format!("rule ee{} {{\n  when b exists {{\n    let v = parse_int(b)\n    %v == 1\n  }}\n}}\n", i),
+            format!("rule ee{} {{\n  l[*] {{\n    %nosuchvar == 1\n  }}\n}}\n", i),
+            format!("rule ee{} {{\n  l[ this == %nosuchvar ] exists\n}}\n", i),
+            format!("rule ee{} when %nosuchvar == 1 {{\n  a == 1\n}}\n", i),
+            format!("rule dep{} {{\n  %nosuchvar == 1\n}}\nrule ee{} {{\n  dep{}\n}}\n", i, i, i),
+            format!("rule f{}(p) {{\n  %nosuchvar == %p\n}}\nrule ee{} {{\n  f{}(a)\n}}\n", i, i, i),
+            format!("rule ee{} {{\n  a exists\n  when a exists {{\n    l[*] {{\n      a empty\n    }}\n    l[*] {{\n      when this exists {{\n        %nosuchvar == 1\n      }}\n    }}\n  }}\n}}\n", i),
+        ][u.below(11)]
+        .clone(),
     }
 }
 fn data_text(u: &mut Choices, k: DK) -> String {
@@ -114,6 +128,13 @@ fn expected_validate(rules: &[String], data: &[String], missing: bool) -> (Expec
             }
             let (v, _) = verdict(d, r);
             match &v {
+                // the rules texts named `ee..` raise an evaluation error on every loadable document
+                // by construction (an unknown variable, parse_int of "x", `empty` on a number, in a
+                // position that is always reached): that fact does not come from the library
+                Verdict::Ok { .. } if r.contains("rule ee") => {
+                    outcomes.push("ERR (by construction)");
+                    any_err = true;
+                }
                 Verdict::Ok { file, .. } => {
                     outcomes.push(file.text());
                     if *file == St::Fail {
